@@ -192,21 +192,28 @@ pub fn graph(nmax: usize) -> BoxedStrategy<AbsGraph> {
 
 /// Graphs in which the semantic roles differ as much as they can: the textbook gadget whose sink is in
 /// every preferred extension without being ideal (0 <-> 1, both attack 2, 2 attacks 3), an unattacked
-/// argument starting a chain (grounded members that are defended rather than unattacked), the chain
-/// optionally attacking the gadget (one connected component), perturbed by up to four generated attacks
-/// and declared in any order by the presentation. Random graphs of this size almost never separate
+/// argument (grounded members), every further argument hanging below these with one or two attackers
+/// (layered defence dependencies), optionally linked into one connected component, perturbed by up to three
+/// generated attacks and relabelled. Random graphs of this size almost never separate
 /// "in every preferred extension", "ideal" and "grounded" like this.
 pub fn role_gadget(nmax: usize) -> BoxedStrategy<AbsGraph> {
-    (6usize..=nmax.max(6), vec((any::<u16>(), any::<u16>()), 0..=4), 0u8..4, any::<u16>())
-        .prop_map(|(n, extra, link, perm)| {
+    (6usize..=nmax.max(6), vec(any::<u16>(), nmax.max(6)), vec((any::<u16>(), any::<u16>()), 0..=3), 0u8..4, any::<u16>())
+        .prop_map(|(n, dag, extra, link, perm)| {
             let mut att: Vec<(usize, usize)> = vec![(0, 1), (1, 0), (0, 2), (1, 2), (2, 3), (4, 5)];
-            // the chain goes on as far as there are arguments: 4 -> 5 -> 6 -> 7 ...
-            for i in 6..n.min(9) {
-                att.push((i - 1, i));
+            // every further argument hangs below the gadget: it gets one or two attackers among the
+            // arguments 2.. created before it (the gadget's sink 3, the unattacked 4, the defeated 5, earlier
+            // ones): layered defence dependencies rooted in an argument that is skeptically accepted without
+            // being ideal, next to ones rooted in the grounded extension
+            for i in 6..n {
+                let w = dag[i % dag.len()] as usize;
+                att.push((2 + w % (i - 2), i));
+                if w & 0x8000 != 0 {
+                    att.push((2 + (w >> 4) % (i - 2), i));
+                }
             }
             match link {
                 1 => att.push((5, 3)),
-                2 => att.push((n.min(9) - 1, 2)),
+                2 => att.push((n - 1, 2)),
                 3 => att.push((3, 5)),
                 _ => {}
             }
